@@ -9,6 +9,7 @@ from ..common import COSTS, DISTANCES, EPS, cost, distance, pick, shard_count
 sys.setrecursionlimit(20000)
 
 META = {
+    'refill': True,      # cases presented in a reused buffer are followed by a refill of that buffer (runner)
     'rule': ('cases = curve (12 families, 4 x-patterns, 4 layouts) x 5 metrics x 2 distances x threshold spread '
              'around the curve\'s own cost ladder so that outcomes range from "2 points kept" to "all kept"; the '
              'monitor re-derives the recursive partition of rdp.rdp\'s output with the library\'s own cost and distance '
